@@ -133,6 +133,7 @@ yprp_extension_instance(struct lys_ypr_ctx *pctx, enum ly_stmt substmt, uint8_t 
 {
     struct lysp_stmt *stmt;
     int8_t inner_flag;
+    LY_ARRAY_COUNT_TYPE u;
 
     if ((ext->flags & LYS_INTERNAL) || (ext->parent_stmt != substmt) || (ext->parent_stmt_index != substmt_index)) {
         return;
@@ -163,6 +164,14 @@ yprp_extension_instance(struct lys_ypr_ctx *pctx, enum ly_stmt substmt, uint8_t 
 
         ypr_close_parent(pctx, &inner_flag);
         yprp_stmt(pctx, stmt);
+    }
+
+    /* extension instances written directly in this one */
+    LY_ARRAY_FOR(ext->exts, u) {
+        if (ext->exts[u].parent_stmt != LY_STMT_EXTENSION_INSTANCE) {
+            continue;
+        }
+        yprp_extension_instance(pctx, LY_STMT_EXTENSION_INSTANCE, ext->exts[u].parent_stmt_index, &ext->exts[u], &inner_flag);
     }
     LEVEL--;
     ypr_close(pctx, ext->name, inner_flag);
